@@ -7,12 +7,15 @@ package main
 import (
 	"context"
 	"fmt"
+	"io"
 	"math/rand"
 	"sort"
 	"strings"
 	"sync/atomic"
 	"time"
 
+	"google.golang.org/grpc/codes"
+	"google.golang.org/grpc/status"
 	"google.golang.org/protobuf/types/known/fieldmaskpb"
 	"google.golang.org/protobuf/types/known/timestamppb"
 
@@ -29,13 +32,29 @@ type bookingCase struct {
 	Kind    string   `json:"kind"` // "booking"
 	Query   string   `json:"query"`
 	NBefore int      `json:"n_before"`
-	Ops     []string `json:"ops"` // `set:<id>:<period>` create-or-update booking <id> with that booked period
+	// Ops: `set:<id>:<period>` create-or-update booking <id> with that booked period; `new:<period>`
+	// CreateBooking through the server WITHOUT an id (the collection generates one: WithGenIDIfAbsent; later
+	// ops name the k-th generated booking `g<k>`); `in:<id>` CheckInBooking (an Update under the update mask
+	// check_in.start_time: the booked period stays, NotFound for an unknown booking)
+	Ops []string `json:"ops"`
+	// Rng: the collection's id source: "" = a fixed pseudo-random byte stream, "zero" = all zero bytes (every
+	// candidate id of a given length is the same: the second generated id needs the retry loop)
+	Rng string `json:"rng,omitempty"`
 	// UpdatesOnly: the request's updates_only flag - no seed; the subscriber takes ListBookings with the same
 	// request as its base line and applies the stream to it.
 	UpdatesOnly bool `json:"updates_only,omitempty"`
 	// Mask: the request's read_mask: "" (none), "id" (the booked period is stripped from every listed and
 	// delivered booking; the period filter must still judge the stored one) or "id,booked".
 	Mask string `json:"mask,omitempty"`
+}
+
+type zeroReader struct{}
+
+func (zeroReader) Read(p []byte) (int, error) {
+	for i := range p {
+		p[i] = 0
+	}
+	return len(p), nil
 }
 
 func (c bookingCase) readMask() *fieldmaskpb.FieldMask {
@@ -199,6 +218,9 @@ func (c bookingCase) key() string {
 	if c.Mask != "" {
 		k = "m=" + c.Mask + "/" + k
 	}
+	if c.Rng != "" {
+		k = "rng=" + c.Rng + "/" + k
+	}
 	return k
 }
 
@@ -218,15 +240,59 @@ func showMap(v map[string]string) string {
 func (c bookingCase) runObs(m sink) (o bookingObs) {
 	trace := []string{}
 	defer func() { o.Trace = trace }()
-	model := bookingpb.NewModel()
+	var rng io.Reader = rand.New(rand.NewSource(20260930))
+	if c.Rng == "zero" {
+		rng = zeroReader{}
+	}
+	model := bookingpb.NewModel(bookingpb.WithBookingOption(resource.WithRNG(rng)))
 	server := bookingpb.NewModelServer(model)
 	client := bookingpb.WrapApi(server)
 	ctx, cancel := context.WithCancel(context.Background())
 	defer cancel()
 	shadowP := map[string]string{}
+	var generated []string
+	resolve := func(id string) string { // `g<k>`: the k-th generated id, once there is one
+		var k int
+		if n, _ := fmt.Sscanf(id, "g%d", &k); n == 1 && k >= 1 && k <= len(generated) {
+			return generated[k-1]
+		}
+		return id
+	}
 	set := func(op string) error {
 		q := strings.Split(op, ":")
-		id, per := q[1], q[2]
+		switch q[0] {
+		case "new":
+			per := q[1]
+			resp, err := client.CreateBooking(ctx, &traits.CreateBookingRequest{Booking: &traits.Booking{Booked: parseP(per)}})
+			if err != nil {
+				o.Executed = append(o.Executed, "add:?:"+per)
+				return err
+			}
+			id := resp.BookingId
+			o.Executed = append(o.Executed, "add:"+id+":"+per)
+			if _, dup := shadowP[id]; dup || id == "" || strings.ContainsAny(id, ":,;@= ~") {
+				return fmt.Errorf("CreateBooking without an id answered id %q (already a booking: %v)", id, dup)
+			}
+			generated = append(generated, id)
+			shadowP[id] = per
+			return nil
+		case "in":
+			id := resolve(q[1])
+			per, ok := shadowP[id]
+			if !ok {
+				per = "nil"
+			}
+			o.Executed = append(o.Executed, "upd:"+id+":"+per)
+			_, err := client.CheckInBooking(ctx, &traits.CheckInBookingRequest{BookingId: id, Time: &timestamppb.Timestamp{Seconds: int64(100 + len(o.Executed))}})
+			if !ok {
+				if status.Code(err) == codes.NotFound {
+					return nil
+				}
+				return fmt.Errorf("CheckInBooking of an unknown booking: want NotFound, got %v", err)
+			}
+			return err
+		}
+		id, per := resolve(q[1]), q[2]
 		o.Executed = append(o.Executed, "ups:"+id+":"+per)
 		if _, ok := shadowP[id]; ok {
 			_, err := client.UpdateBooking(ctx, &traits.UpdateBookingRequest{Booking: &traits.Booking{Id: id, Booked: parseP(per)}})
@@ -254,7 +320,10 @@ func (c bookingCase) runObs(m sink) (o bookingObs) {
 	// registered it holds the collection's read lock, hence every later write commits - and publishes -
 	// after the registration.  (An updates-only subscription registers WITHOUT the lock: see below.)
 	subscribing := make(chan struct{}, 1)
-	var turns atomic.Int64 // deliveries Bus.Send has started: one per registered listener and published event
+	// turns: deliveries Bus.Send has started (one per registered listener and published event) while the
+	// harness was inside a probe write - the hook is process-wide, nothing else may be counted
+	var turns atomic.Int64
+	var probing atomic.Bool
 	verifhook.Set(func(point string) {
 		switch point {
 		case "coll.onUpdate.beforeListen":
@@ -263,7 +332,9 @@ func (c bookingCase) runObs(m sink) (o bookingObs) {
 			default:
 			}
 		case "bus.send.beforeListener":
-			turns.Add(1)
+			if probing.Load() {
+				turns.Add(1)
+			}
 		}
 	})
 	defer verifhook.Set(nil)
@@ -467,7 +538,9 @@ func (c bookingCase) runObs(m sink) (o bookingObs) {
 				return
 			}
 			t0, nb := turns.Load(), len(o.Executed)
+			probing.Store(true)
 			fid, err := writeFence()
+			probing.Store(false)
 			if err != nil {
 				m.Violate("C08/booking/write-error", "booking write failed", c, "ok", err.Error())
 				return
@@ -629,9 +702,9 @@ func queryShape(q string) string {
 
 // bookingWait bounds every wait for a fence event of the booking family.  On the unchanged tree a fence
 // arrives within microseconds; once a case has lost a fence in its run AND in its confirmation run (each
-// waiting the full fenceTimeout) the tree is broken, and the following cases wait 500 ms, after the next
+// waiting the full 3 s) the tree is broken, and the following cases wait 500 ms, after the next
 // such case 50 ms - so that a broken tree is reported within the quick tier's budget.
-var bookingWait = fenceTimeout
+var bookingWait = 3 * time.Second
 var bookingFencesLost = 0
 
 // runConfirmed evaluates the case, re-running it on a fresh server before a violation is reported.
@@ -709,7 +782,7 @@ func walk(c bookingCase, shapes []string) bookingCase {
 func runBooking(f lib.Flags, res *lib.Result, drv *lib.Driver) {
 	tie := res.Tie("booking-server", "K1",
 		"the same cases through the Lean model of the booking server's options (bookingInclude: no request period = no filter; else PeriodsIntersect(booked, request) by C18's model of pkg/time - degenerate periods included -, false for a missing booked period; read mask = projection applied after include; updates_only = no seed) composed with the collection model (`bpullx`): the seed PullBookings delivers, and for every fence the set of changes delivered since the previous one and ListBookings with the same request, are compared with the model's answer; non-trivial = request period present; distinct = (request, history)")
-	mon := res.Monitor("booking-period-predicate", "real bookingpb.ModelServer through its wrapper client: every request shape (booking_intersects absent, {}, start-only, end-only, both, degenerate) x a booking walked through every booking shape (no booked period, start-only, end-only, inside, touching, overlapping, disjoint, unbounded; zero-length inside/on the border/outside, end before start), with and without updates_only (base line = ListBookings taken before the first event; the moment of registration found by probe writes and the bus's yield point) and with a read mask that strips the booked period, plus random create/update histories of 2-3 bookings with such periods over seconds 0..8: after each write (fenced by creating a fresh listed booking) every event is well formed at the subscriber's view, fold(stream) = ListBookings with the same request (same bookings, values, order), and both = the bookings sharing an instant with the request period by an integer-interval oracle (for proper periods; a degenerate period holds no instant and the oracle leaves the booking open); distinct = (request, history)")
+	mon := res.Monitor("booking-period-predicate", "real bookingpb.ModelServer through its wrapper client: every request shape (booking_intersects absent, {}, start-only, end-only, both, degenerate) x a booking walked through every booking shape (no booked period, start-only, end-only, inside, touching, overlapping, disjoint, unbounded; zero-length inside/on the border/outside, end before start), with and without updates_only (base line = ListBookings taken before the first event; the moment of registration found by probe writes and the bus's yield point) and with a read mask that strips the booked period, bookings created through the server without an id (the collection generates it - also from an id source whose candidates collide, so that the retry loop runs) and check-ins (updates under an update mask that leave the booked period alone) of listed, unlisted and unknown bookings, plus random histories of such writes on 2-4 bookings with such periods over seconds 0..8: after each write (fenced by creating a fresh listed booking) every event is well formed at the subscriber's view, fold(stream) = ListBookings with the same request (same bookings, values, order), and both = the bookings sharing an instant with the request period by an integer-interval oracle (for proper periods; a degenerate period holds no instant and the oracle leaves the booking open); distinct = (request, history)")
 	_ = resource.WithInclude
 	r := lib.NewRand(f.Seed + 7)
 	n := f.N(400, 4000)
@@ -731,6 +804,16 @@ func runBooking(f lib.Flags, res *lib.Result, drv *lib.Driver) {
 		run(walk(bookingCase{Query: q, NBefore: 2}, degenerateShapes))
 		run(walk(bookingCase{Query: q, NBefore: 2, UpdatesOnly: true, Mask: "id,booked"}, degenerateShapes))
 	}
+	// bookings created without an id (generated ids, with and without forced collisions of the candidates),
+	// moved in and out of the period, and check-ins (writes that leave the booked period alone) of listed,
+	// unlisted and unknown bookings
+	genWalk := []string{"new:4/5", "new:7/9", "in:g1", "in:g2", "in:zz", "set:g1:7/8", "in:g1", "new:nil", "set:g2:2/4", "in:g2", "set:g3:5/5", "new:-/-", "set:g1:nil", "in:g1", "set:g4:0/1"}
+	for _, q := range []string{"absent", "3/6", "3/-", "4/4"} {
+		for _, rng := range []string{"", "zero"} {
+			run(bookingCase{Query: q, NBefore: 1, Ops: genWalk, Rng: rng})
+			run(bookingCase{Query: q, NBefore: 3, Ops: genWalk, Rng: rng, UpdatesOnly: true, Mask: "id,booked"})
+		}
+	}
 	for _, q := range degenerateQueries {
 		run(walk(bookingCase{Query: q, NBefore: 3}, bookingShapes))
 		run(walk(bookingCase{Query: q, NBefore: 1, UpdatesOnly: true}, degenerateShapes))
@@ -740,7 +823,21 @@ func runBooking(f lib.Flags, res *lib.Result, drv *lib.Driver) {
 		c := bookingCase{Kind: "booking", Query: genPeriod(r, "absent"), NBefore: r.Intn(3)}
 		k := c.NBefore + 1 + r.Intn(5)
 		for j := 0; j < k; j++ {
-			c.Ops = append(c.Ops, "set:"+ids[r.Intn(len(ids))]+":"+genPeriod(r, "nil"))
+			id := ids[r.Intn(len(ids))]
+			if r.Intn(5) == 0 {
+				id = "g1"
+			}
+			switch r.Intn(8) {
+			case 0:
+				c.Ops = append(c.Ops, "new:"+genPeriod(r, "nil"))
+			case 1:
+				c.Ops = append(c.Ops, "in:"+id)
+			default:
+				c.Ops = append(c.Ops, "set:"+id+":"+genPeriod(r, "nil"))
+			}
+		}
+		if r.Intn(4) == 0 {
+			c.Rng = "zero"
 		}
 		switch r.Intn(6) {
 		case 0, 1:
